@@ -8,6 +8,12 @@ set_option linter.unusedSimpArgs false
 namespace Ramses.C03Time
 open Ramses
 
+/-- `f"{n:02X}"` of a byte -/
+theorem fmtX_byte' (n : Int) (h0 : 0 ≤ n) (h1 : n ≤ 255) : fmtX 2 n = fmtHex 2 n.toNat ∧ (fmtHex 2 n.toNat).length = 2 := by
+  have hn : n.toNat < 16 ^ 2 := by omega
+  refine ⟨?_, fmtHex_length 2 _ (by decide) hn⟩
+  unfold fmtX; rw [if_neg (by omega)]
+
 /-- `dtm.isoformat(timespec="seconds")` as the decoder reports it -/
 def isoJson (d : DateTime) : Json :=
   .str (toDecW 4 d.year ++ '-' :: toDecW 2 d.month ++ '-' :: toDecW 2 d.day ++ 'T' :: toDecW 2 d.hour ++
